@@ -292,6 +292,22 @@ add('SIGMF',
     Rule('X-SIGMF', '$o:i.fill_from_iter($b:p.chunks_exact($ss:e).take($k:e).map(|d| T::parse(d).expect($m:e)) $_:c);', 'fill_from_parsed_chunks_take::<T>(&mut $o, &$b, $ss, $k);', stmt_start=True),
     Rule('X-SIGMF', '$b:p.drain(..($k:e));', 'drain_prefix(&mut $b, $k);', stmt_start=True))
 
+# X-WPCR (unit wpcr): iterator pipelines / float expressions of wpcr.rs
+add('WPCR',
+    Rule('X-WPCR', '$d:i.iter().map(|x| x.norm_sqr().sqrt()).collect::<Vec<_>>()', 'magnitudes($d)'),
+    Rule('X-WPCR', 'mag.iter().take($n:e).skip($k:e).max_by($c:a).unwrap() * 0.8', 'scale08(max_of_range(&mag, $k, $n).unwrap())'),
+    Rule('X-WPCR', 'mag.iter().take($n:e).skip($k:e).max_by($c:a)? * 0.8', 'scale08(max_of_range(&mag, $k, $n)?)'),
+    Rule('X-WPCR', 'for (n, (v, nxt)) in mag.iter().zip(mag.iter().skip(1)).enumerate().skip($k:e) $body:b',
+         '{ let mut n: usize = $k; while n + 1 < mag.len() { let v = &mag[n]; let nxt = &mag[n + 1]; $body n += 1; } }'),
+    Rule('X-WPCR', 'v.iter().sum::<Float>() / v.len() as Float', 'mean_of(&v)'),
+    Rule('X-WPCR', 'mean.is_nan()', 'is_nan(mean)'),
+    Rule('X-WPCR', 'v.iter().partition(|&t| *t > mean)', 'partition_gt(&v, mean)'),
+    Rule('X-WPCR', '$a:i.sort_by(|a, b| a.partial_cmp(b).unwrap());', 'sort_floats(&mut $a);', stmt_start=True),
+    Rule('X-WPCR', 'low + (high - low) / 2.0', 'midpoint(low, high)'),
+    Rule('X-WPCR', 'v.iter().map(|t| t - offset).collect::<Vec<_>>()', 'shifted(&v, offset)'),
+    Rule('X-WPCR', '*$a:i > *$b:i', 'f_gt(*$a, *$b)'),
+    Rule('X-WPCR', '*$a:i > $b:i', 'f_gt(*$a, $b)'))
+
 # X-ZC (unit zc): float expressions of zero_crossing.rs become calls of uninterpreted functions; the optional clock stream
 add('ZC',
     Rule('X-ZC', '($a:e + ($b:e / 2.0)) as u64', 'f2u(fadd($a, fhalf($b)))'),
